@@ -95,6 +95,17 @@ fn insensitive_family(b: &mut Builder, tier: Tier) {
     }
 }
 
+/// the same text as a case-sensitive and as a case-insensitive literal next to each other in choices and sequences
+fn insensitive_mixed_family(b: &mut Builder, tier: Tier) {
+    let atoms = vec![lit("k"), ilit("k"), lit("z"), ilit("kz")];
+    let k = if tier == Tier::Quick { 5 } else { 6 };
+    let inputs = InputSpec::Strings { alphabet: vec!['k', 'K', 'z', 'Z'], max_len: 4 };
+    for e in trees(&atoms, &[Op::Opt, Op::Seq2, Op::Choice2], k) {
+        let g = root_grammar(vec![Directive::Export, Directive::Position, Directive::NoSkipWs], e, &[]);
+        add_if_wf(b, "insensitive-mixed", g, &inputs);
+    }
+}
+
 /// long inputs: repetition counts around powers of two (chunked scanning, counters, small-buffer shortcuts)
 pub fn long_counts(tier: Tier) -> Vec<usize> {
     let mut v = vec![7, 8, 9, 15, 16, 17, 31, 32, 33, 63, 64, 65, 127, 128, 129, 255, 256, 257];
@@ -179,6 +190,7 @@ pub fn c01(tier: Tier) -> Vec<Case> {
     // escapes and @char classes
     charclass_family(&mut b, tier);
     insensitive_family(&mut b, tier);
+    insensitive_mixed_family(&mut b, tier);
     long_family(&mut b, tier);
     b.cases
 }
@@ -502,6 +514,34 @@ pub fn c02(tier: Tier) -> Vec<Case> {
         }
     }
     directive_matrix(&mut b, "directive-matrix", tier);
+    // @string rules of every small body shape (also a lone literal, case-insensitive literals, ranges), with and without
+    // @no_skip_ws / @position, from skipping and non-skipping roots: the value is exactly the consumed slice
+    {
+        let atoms = vec![lit("b"), ilit("b"), ilit("bc"), range('b', 'c')];
+        let spec = InputSpec::Strings { alphabet: vec!['b', 'B', 'c', 'C', ' '], max_len: if tier == Tier::Quick { 4 } else { 5 } };
+        for body in trees(&atoms, &NO_LOOKAHEAD_OPS, if tier == Tier::Quick { 2 } else { 3 }) {
+            for s_noskip in [true, false] {
+                for s_pos in [false, true] {
+                    for root_noskip in [true, false] {
+                        let mut sd = vec![Directive::String];
+                        if s_noskip {
+                            sd.push(Directive::NoSkipWs);
+                        }
+                        if s_pos {
+                            sd.push(Directive::Position);
+                        }
+                        let rules = vec![Rule::normal("S", sd, body.clone())];
+                        let mut rd = vec![Directive::Export];
+                        if root_noskip {
+                            rd.push(Directive::NoSkipWs);
+                        }
+                        let g = root_grammar(rd, seq(vec![field("s", "S"), opt(field("t", "S"))]), &rules);
+                        add_if_wf(&mut b, "string-bodies", g, &spec);
+                    }
+                }
+            }
+        }
+    }
     // override family: Root = r:R with R an override rule (plain overrides cannot be exported)
     for e in trees(&over_atoms, &NO_LOOKAHEAD_OPS, k_over) {
         let mut rules = vec![Rule::normal("R", vec![Directive::NoSkipWs], e.clone())];
@@ -643,11 +683,9 @@ pub fn c04(tier: Tier) -> Vec<Case> {
 
 // ------------------------------------------------------------------------------------------- C08
 
-pub fn c08(tier: Tier) -> Vec<Case> {
-    let mut b = Builder::new();
-    directive_matrix(&mut b, "ws/directive-matrix", tier);
-    // choices whose alternatives are single tokens, some of which can match nothing; the end of the enclosing
-    // rule is observed through @position / @string / a @no_skip_ws caller
+/// choices whose alternatives are single tokens, some of which can match nothing; the end of the enclosing
+/// rule is observed through @position / @string / a @no_skip_ws caller (shared by C08 and C09)
+fn nullable_alternatives_family(b: &mut Builder, fam: &str, tier: Tier) {
     {
         let inputs = InputSpec::Strings { alphabet: vec!['b', 'c', ' ', 'k'], max_len: if tier == Tier::Quick { 4 } else { 5 } };
         let alts: Vec<Vec<Expr>> = vec![
@@ -676,12 +714,18 @@ pub fn c08(tier: Tier) -> Vec<Case> {
                             dirs.push(Directive::NoSkipWs);
                         }
                         let g = root_grammar(dirs, root_body.clone(), &[num.clone(), u.clone()]);
-                        add_if_wf(&mut b, "ws/nullable-alternatives", g, &inputs);
+                        add_if_wf(b, fam, g, &inputs);
                     }
                 }
             }
         }
     }
+}
+
+pub fn c08(tier: Tier) -> Vec<Case> {
+    let mut b = Builder::new();
+    directive_matrix(&mut b, "ws/directive-matrix", tier);
+    nullable_alternatives_family(&mut b, "ws/nullable-alternatives", tier);
     // long whitespace runs between and around two tokens, with the built-in skipper
     {
         let mut inputs: Vec<String> = Vec::new();
@@ -801,6 +845,7 @@ pub fn c08(tier: Tier) -> Vec<Case> {
 pub fn c09(tier: Tier) -> Vec<Case> {
     let mut b = Builder::new();
     directive_matrix(&mut b, "pos/directive-matrix", tier);
+    nullable_alternatives_family(&mut b, "pos/nullable-alternatives", tier);
     // positions at large offsets
     {
         let mut inputs: Vec<String> = Vec::new();
